@@ -176,6 +176,14 @@ def value_items(c, name, f, depth, rng):
     return out
 
 
+MAP_SUB = {"fields": [], "rename_all": "", "flat_map": True}
+
+
+def flat_sub(c, f):
+    """The declaration a flatten member hands its items to; a map-typed member has no declaration of its own."""
+    return MAP_SUB if f["ty"]["k"] == "map" else c.decls[f["ty"]["id"] - 1]
+
+
 def alphabet(c, s, rule, depth, rng, parent_names=()):
     out = []
     names = []
@@ -187,6 +195,11 @@ def alphabet(c, s, rule, depth, rng, parent_names=()):
                 out.append(meta(nm, "nv", "s:v1"))
             continue
         if f["flatten"]:
+            if f["ty"]["k"] == "map":
+                # a map takes every name the receiver does not know: good, repeated, wrong-valued, wrong-form entries
+                out += [meta("k1", "nv", "s:v1"), meta("k2", "nv", "s:v2"), meta("k1", "nv", "i:5"), meta("k2", "word"),
+                        meta("k1", "list", items=[meta("a", "word")])]
+                continue
             sub = c.decls[f["ty"]["id"] - 1]
             if depth > 0:
                 out += alphabet(c, sub, sub["rename_all"], depth, rng)[:8]
@@ -356,6 +369,14 @@ def build(seed, tier, focus='all'):
     root([field("verbose", F), field("strict", F), field("other", O)], max_items=2)
     root([field("inner", ty("recv", leaf_fn)), field("e", ty("enum", e_word)), field("table", ty("map"), default="trait"), field("quiet", F)],
          max_items=2)
+    # a flatten member that is a map: it keeps every name the receiver itself does not know (its errors are the map's:
+    # a repeat on the name, a bad value on the value and under its key; nothing is unknown any more)
+    root([field("name", V), field("rest", ty("map"), flatten=True)])
+    root([field("name", V, default="trait"), field("hidden_one", V, skip=True), field("count", U, default="trait"),
+          field("rest", ty("map"), flatten=True)], trait="FromDeriveInput", attr_names=["x"], max_items=3, max_attrs=2)
+    mapflat_inner = c.struct([field("label", O), field("rest", ty("map"), flatten=True)])
+    root([field("name", V, default="trait"), field("inner", ty("recv", mapflat_inner)), field("more", ty("recv", mapflat_inner), flatten=True)],
+         max_items=2)
     # --- suggestion scoping (C17): a flatten member that itself has a nested (non-flatten) receiver
     flat_nest = c.struct([field("parent_opt", ty("recv", leaf_req2)), field("wide", U, default="trait")])
     root([field("blast", V, default="trait"), field("pq", O), field("rest", ty("recv", flat_nest), flatten=True)], max_items=2)
@@ -523,6 +544,11 @@ def is_good(c, s, rule, it):
         return False
     for f in s["fields"]:
         if f["flatten"]:
+            if f["ty"]["k"] == "map":
+                if it["form"] == "nv" and it["val"].startswith("s:") and it["val"] != "s:bad" and \
+                        not any(not g["flatten"] and not g["skip"] and eff_field(rule, g) == it["name"] for g in s["fields"]):
+                    return True
+                continue
             sub = c.decls[f["ty"]["id"] - 1]
             if is_good(c, sub, sub["rename_all"], it):
                 return True
@@ -574,7 +600,7 @@ def level_names(c, s, rule):
     own = [eff_field(rule, f) for f in s["fields"] if not f["flatten"]]        # incl. skipped ones
     for f in s["fields"]:
         if f["flatten"]:
-            sub = c.decls[f["ty"]["id"] - 1]
+            sub = flat_sub(c, f)
             own += level_names(c, sub, sub["rename_all"])
     return own
 
@@ -589,7 +615,7 @@ def suggest_alphabet(c, d, rng):
         t = f["ty"]
         stack = [t]
         if f["flatten"]:
-            stack = [x["ty"] for x in c.decls[t["id"] - 1]["fields"]]
+            stack = [x["ty"] for x in flat_sub(c, f)["fields"]]
         for t in stack:
             if t["k"] == "recv":
                 sub = c.decls[t["id"] - 1]
@@ -600,12 +626,12 @@ def suggest_alphabet(c, d, rng):
     near += [n for f in d["fields"] if f["skip"] for n in [eff_field(rule, f)] if writable(n)]
     rng.shuffle(near)
     # a flatten chain of depth >= 2 improves one suggestion more than once on the way out: every near miss of every level
-    deep_chain = any(f["flatten"] and any(g["flatten"] for g in c.decls[f["ty"]["id"] - 1]["fields"]) for f in d["fields"])
+    deep_chain = any(f["flatten"] and any(g["flatten"] for g in flat_sub(c, f)["fields"]) for f in d["fields"])
     d["deep_chain"] = deep_chain
     out = [meta(n, "nv", "s:v1") for n in (sorted(set(near)) if deep_chain else near[:14])]
     # inside nested (non-flatten) receivers: names close to the OUTER level's names and to the inner ones
     for f in d["fields"]:
-        for t, holder in ([(f["ty"], d)] if not f["flatten"] else [(x["ty"], c.decls[f["ty"]["id"] - 1]) for x in c.decls[f["ty"]["id"] - 1]["fields"]]):
+        for t, holder in ([(f["ty"], d)] if not f["flatten"] else [(x["ty"], flat_sub(c, f)) for x in flat_sub(c, f)["fields"]]):
             if t["k"] != "recv":
                 continue
             sub = c.decls[t["id"] - 1]
